@@ -898,6 +898,8 @@ class Interp:
                 vals = [value.at(i) for i in range(n)]
         elif isinstance(value, Unknown):
             vals = [Unknown(value.why + "[%d]" % i) for i in range(n)]
+        elif isinstance(value, Sym) and value.kind != "str":
+            raise TypeError("cannot unpack non-iterable %s object" % {"int": "int", "real": "float", "bool": "bool"}[value.kind])
         else:
             vals = list(value)
         if len(vals) != n:
@@ -1060,7 +1062,61 @@ class Interp:
         b = self.eval(node.right, frame)
         return self.binop(BINOPS[type(node.op)], a, b, node=node)
 
+    _DUNDER = {operator.add: "add", operator.sub: "sub", operator.mul: "mul", operator.truediv: "truediv", operator.floordiv: "floordiv",
+               operator.mod: "mod", operator.pow: "pow", operator.and_: "and", operator.or_: "or", operator.xor: "xor", operator.matmul: "matmul",
+               operator.iadd: "add", operator.isub: "sub", operator.imul: "mul", operator.itruediv: "truediv", operator.ifloordiv: "floordiv",
+               operator.imod: "mod", operator.ipow: "pow", operator.ior: "or", operator.iand: "and"}
+    _INPLACE = {operator.iadd, operator.isub, operator.imul, operator.itruediv, operator.ifloordiv, operator.imod, operator.ipow, operator.ior, operator.iand}
+
+    def _repo_dunder(self, obj, name):
+        cls = type(obj)
+        if not self._is_repo_class(cls):
+            return None
+        for k in cls.__mro__:
+            if name in k.__dict__:
+                f = k.__dict__[name]
+                if isinstance(f, types.FunctionType) and self.is_repo_function(f):
+                    return f
+                return None
+        return None
+
+    def dispatch_binop(self, op, a, b):
+        """python's binary operator protocol, routed through the interpreter for repository classes"""
+        nm = self._DUNDER.get(op)
+        if nm is None or not (contains_sym(a) or contains_sym(b)):
+            return NotImplemented
+        fa_i = self._repo_dunder(a, "__i%s__" % nm) if op in self._INPLACE else None
+        fa = self._repo_dunder(a, "__%s__" % nm)
+        fb = self._repo_dunder(b, "__r%s__" % nm)
+        if fa_i is None and fa is None and fb is None:
+            return NotImplemented
+        if fa_i is not None:
+            r = self.call_function(fa_i, (a, b), {})
+            if r is not NotImplemented:
+                return r
+        right_first = fb is not None and type(b) is not type(a) and isinstance(b, type(a))
+        if right_first:
+            r = self.call_function(fb, (b, a), {})
+            if r is not NotImplemented:
+                return r
+        if fa is not None:
+            r = self.call_function(fa, (a, b), {})
+            if r is not NotImplemented:
+                return r
+        elif hasattr(type(a), "__%s__" % nm) and not isinstance(a, Sym):
+            r = getattr(type(a), "__%s__" % nm)(a, b)
+            if r is not NotImplemented:
+                return r
+        if fb is not None and not right_first:
+            r = self.call_function(fb, (b, a), {})
+            if r is not NotImplemented:
+                return r
+        return NotImplemented
+
     def binop(self, op, a, b, inplace=False, node=None):
+        r = self.dispatch_binop(op, a, b)
+        if r is not NotImplemented:
+            return r
         if (op is operator.mod or op is operator.imod) and isinstance(a, str) and contains_sym(b):
             from . import stubs
             return stubs.format_percent(self, a, b)
@@ -1075,6 +1131,10 @@ class Interp:
             if isinstance(t, Sym):
                 return wrap(z3.Not(t.e))
             return not t
+        if contains_sym(v):
+            f = self._repo_dunder(v, {ast.USub: "__neg__", ast.UAdd: "__pos__", ast.Invert: "__invert__"}[type(node.op)])
+            if f is not None:
+                return self.call_function(f, (v,), {})
         return UNOPS[type(node.op)](v)
 
     def bool_value(self, v):
@@ -1145,6 +1205,26 @@ class Interp:
         if isinstance(op, ast.NotIn):
             r = self.contains(b, a)
             return wrap(z3.Not(r.e)) if isinstance(r, Sym) else (not r)
+        if contains_sym(a) or contains_sym(b):
+            nm = {ast.Eq: "__eq__", ast.NotEq: "__ne__", ast.Lt: "__lt__", ast.LtE: "__le__", ast.Gt: "__gt__", ast.GtE: "__ge__"}[type(op)]
+            f = self._repo_dunder(a, nm)
+            if f is not None:
+                r = self.call_function(f, (a, b), {})
+                if r is not NotImplemented:
+                    return r
+            refl = {"__eq__": "__eq__", "__ne__": "__ne__", "__lt__": "__gt__", "__le__": "__ge__", "__gt__": "__lt__", "__ge__": "__le__"}[nm]
+            f = self._repo_dunder(b, refl)
+            if f is not None:
+                r = self.call_function(f, (b, a), {})
+                if r is not NotImplemented:
+                    return r
+            if nm == "__ne__":
+                f = self._repo_dunder(a, "__eq__")
+                if f is not None:
+                    r = self.call_function(f, (a, b), {})
+                    if r is not NotImplemented:
+                        t = self.bool_value(r)
+                        return wrap(z3.Not(t.e)) if isinstance(t, Sym) else (not t)
         return CMPOPS[type(op)](a, b)
 
     def is_(self, a, b):
